@@ -107,6 +107,7 @@ MemExpected ==
     /\ E.seg = seg /\ E.idx = pos /\ WellFormed(E.cap)
     /\ CASE S.ev = "memd" -> Same(E.cap, AddSmall(MiB, pos))
          [] S.ev = "memp" -> Same(E.cap, Pow2Cap(pos))
+         [] S.ev = "memw" -> Same(E.cap, AddSmall(Pow2L(S.p), pos))
          [] S.ev = "memr" -> Leq(MiB, E.cap) /\ Leq(E.cap, AddSmall(Pow2L(46), 1))
          [] OTHER -> FALSE
 
